@@ -27,8 +27,36 @@ def run(tier):
     for t1 in range(4):
         for t2 in range(4):
             jobs.append(dict(base, harness="VerifC07PackageKey", params={"t1": t1, "t2": t2}))
+    import random
+    rnd = random.Random(20261002)
+    nsk = 80 if q else 800
+    rbase = dict(base, unwind=400, max_steps=50_000_000, max_depth=200, timeout_s=300 if q else 1200, witness_every=50)
+    for i in range(nsk):
+        allsoft = 1 if i % 2 == 0 else 0
+        p = {"allsoft": allsoft, "mgt": 0, "mgtr": 0}
+        kinds = [0, 0, 0, 1, 2, 3] if allsoft else [0, 0, 1, 2, 3, 4, 5]
+        reqs = [0, 1, 6] if allsoft else [0, 1, 2, 3, 4, 5, 6]
+        targets = [1, 2, 3]
+        rnd.shuffle(targets)
+        for s in range(3):
+            p["r%dt" % s] = targets[s] if (s == 0 or rnd.random() < 0.7) else 0
+            p["r%dr" % s] = rnd.choice(reqs)
+            p["r%dk" % s] = rnd.choice(kinds)
+            p["r%dx" % s] = rnd.randrange(3)
+        if not allsoft and rnd.random() < 0.4:
+            p["mgt"] = rnd.choice([1, 2, 3])
+            p["mgtr"] = rnd.choice([0, 1, 6])
+        for pi in range(3):
+            p["nv%d" % pi] = rnd.choice([1, 2, 3])
+            for vi in range(3):
+                p["p%d%dt" % (pi, vi)] = rnd.choice([0, 1, 2, 3])
+                p["p%d%dr" % (pi, vi)] = rnd.choice(reqs)
+                p["p%d%dk" % (pi, vi)] = rnd.choice(kinds)
+                p["p%d%dx" % (pi, vi)] = rnd.randrange(3)
+        jobs.append(dict(rbase, harness="VerifC07Resolve", params=p))
     return run_property("C07", tier, [Group("rmaven", jobs)],
                         required_covers=["requirements parsed", "match expected", "no candidate", "excluded", "not excluded", "dependency followed",
-                                         "dependency skipped", "same artifact", "different artifact"],
-                        assumptions=["unit lemmas only: findMatch, isExcluded/parseExclusions/mergeExclusions, imports, packageKeyForDependency; the whole-graph clauses (nearest-wins, management override along paths) are not decided here"],
+                                         "dependency skipped", "same artifact", "different artifact", "resolved", "a graph with several nodes", "nearest-wins checked"],
+                        assumptions=["unit lemmas: findMatch, isExcluded/parseExclusions/mergeExclusions, imports, packageKeyForDependency",
+                                     "whole resolver: universe skeletons (3 artifacts + root, <=3 versions, one requirement slot per version, three for the root, optional root dependencyManagement entry) are a fixed pseudo-random sample; version numbers and the digits in requirements are symbolic in 1..4; the nearest-wins clause is asserted on the skeletons with soft requirements only; exclusion-along-paths is asserted only through the unit lemma"],
                         bounds={"requirements": 2 if q else 3, "listed_versions": 3, "digits": "1-4"})
